@@ -127,7 +127,7 @@ type c13param struct {
 	dflt     any
 }
 
-func c13Params(explode *bool) ([]c13param, []any) {
+func c13Params(explode *bool) ([]c13param, []any, []any) {
 	ps := []c13param{
 		{"qi", "query", gen.S{"type": "integer", "default": 7.0}, "3", 7.0},
 		{"qs", "query", gen.S{"type": "string", "default": "dq", "enum": gen.Arr("dq", "other")}, "other", "dq"},
@@ -136,27 +136,38 @@ func c13Params(explode *bool) ([]c13param, []any) {
 		{"X-DA", "header", gen.S{"type": "array", "items": gen.S{"type": "string"}, "default": gen.Arr("a", "b")}, "c,d", gen.Arr("a", "b")},
 		{"ck", "cookie", gen.S{"type": "string", "default": "cd"}, "mine", "cd"},
 	}
-	var js []any
+	var js, pathJS []any
 	for _, p := range ps {
 		m := gen.S{"name": p.name, "in": p.in, "schema": p.schema}
 		if p.name == "qa" && explode != nil {
 			m["explode"] = *explode
 		}
+		if p.name == "X-D" && explode == nil {
+			// declared on the path item; the operation declares a parameter of the same name in another location,
+			// which is a different parameter (identity is name + location) and overrides nothing
+			pathJS = append(pathJS, m)
+			js = append(js, gen.S{"name": p.name, "in": "query", "schema": gen.S{"type": "string"}})
+			continue
+		}
 		js = append(js, m)
 	}
 	// undefaulted neighbours
 	js = append(js, gen.S{"name": "qn", "in": "query", "schema": gen.S{"type": "integer"}}, gen.S{"name": "X-N", "in": "header", "schema": gen.S{"type": "string"}})
-	return ps, js
+	return ps, js, pathJS
 }
 
 func c13Doc(explode *bool, bodySchema gen.S, secured bool) gen.S {
-	_, params := c13Params(explode)
+	_, params, pathParams := c13Params(explode)
 	op := gen.S{"parameters": params, "responses": okResponses(),
 		"requestBody": gen.S{"content": gen.S{"application/json": gen.S{"schema": bodySchema}}}}
 	if secured {
 		op["security"] = gen.Arr(gen.S{"A": gen.Arr()}, gen.S{"B": gen.Arr()})
 	}
-	d := baseDoc(gen.S{"/d": gen.S{"post": op}})
+	item := gen.S{"post": op}
+	if pathParams != nil {
+		item["parameters"] = pathParams
+	}
+	d := baseDoc(gen.S{"/d": item})
 	d["components"] = gen.S{"securitySchemes": gen.S{"A": gen.S{"type": "apiKey", "in": "header", "name": "X-A"}, "B": gen.S{"type": "http", "scheme": "bearer"}}}
 	return d
 }
@@ -278,6 +289,9 @@ func c13Snapshot(req *http.Request) c13snap {
 	return s
 }
 
+// parameters declared on the path item of the document under test (one document at a time per process)
+var pathItemParams openapi3.Parameters
+
 func c13Group(c *core.Ctx, explode *bool, si int, schema gen.S, secured bool, mask int) {
 	d, err := loadDoc(c13Doc(explode, schema, secured))
 	if err != nil {
@@ -288,8 +302,9 @@ func c13Group(c *core.Ctx, explode *bool, si int, schema gen.S, secured bool, ma
 	if err != nil {
 		return
 	}
-	params, _ := c13Params(explode)
+	params, _, _ := c13Params(explode)
 	op := d.Paths.Find("/d").Post
+	pathItemParams = d.Paths.Find("/d").Parameters
 	exName := "unset"
 	if explode != nil {
 		exName = fmt.Sprint(*explode)
@@ -528,8 +543,8 @@ func c13Case(c *core.Ctx, router routers.Router, op *openapi3.Operation, params 
 					continue
 				}
 				var kp *openapi3.Parameter
-				for _, pr := range op.Parameters {
-					if pr.Value.Name == p.name {
+				for _, pr := range append(append(openapi3.Parameters{}, pathItemParams...), op.Parameters...) {
+					if pr.Value.Name == p.name && pr.Value.In == p.in {
 						kp = pr.Value
 					}
 				}
